@@ -31,34 +31,23 @@ def tlaset(xs):
 # ----------------------------------------------------------------------------- C05
 @prop("C05")
 def c05(ctx):
-    kinds_all = ["sign1", "sign1u", "sign", "sig"]
-    # (a) the property on the specification + (b) generation, in one exhaustive exploration per depth
-    cases = []
-    c1 = cfgtext(invariants=["BaseWF", "ConformingIsWF", "KindsDisjoint", "Emit"],
-                 constants=dict(Depth=1, GenKinds=tlaset(kinds_all + ["csig"]), MaxBase=3))
-    cases += gen(ctx, "Gen_C05", c1)
-    if ctx.quick():
-        c2 = cfgtext(invariants=["ConformingIsWF", "Emit"], constants=dict(Depth=2, GenKinds=tlaset(["sign1", "sig"]), MaxBase=1))
-    else:
-        c2 = cfgtext(invariants=["ConformingIsWF", "Emit"], constants=dict(Depth=2, GenKinds=tlaset(kinds_all), MaxBase=3))
-    cases += gen(ctx, "Gen_C05", c2, timeout=3000, heap="12g")
-    seen, uniq = set(), []
-    for c in cases:
-        k = (tuple(c["bytes"]))
-        if k in seen:
-            continue
-        seen.add(k)
-        c["src"] = "tlc"
-        uniq.append(c)
+    uniq = c05_cases_fwd(ctx)
+    for d in harness(ctx, ["drive", "nopanic"]):
+        uniq.append(dict(kind="any", base=0, d=0, bytes=d["bytes"], src="driver"))
     events = harness(ctx, ["exec", "C05"], uniq)
     rejects = judge(ctx, "Trace_C05", events)
     return report(ctx, events, rejects,
                   nontrivial=lambda e: any(e["acc"].values()),
                   key=lambda e: tuple(e["bytes"]),
                   rule="TLC enumerates every single and (tier-dependent) double structural mutation at every position of the CBOR tree of valid "
-                       "COSE_Sign1/COSE_Sign/COSE_Signature base messages; each distinct byte string is offered to all five decoders of the real "
+                       "COSE_Sign1/COSE_Sign/COSE_Signature base messages; a seeded byte-level mutation driver adds bit flips, edits, splices, truncations and "
+                       "random bytes over a corpus of valid messages; each distinct byte string is offered to all five decoders of the real "
                        "library; non-trivial = at least one decoder accepted it (so well-formedness had to be established by the TLA+ parser)",
-                  exhaustive=True)
+                  exhaustive=False)
+
+
+def c05_cases_fwd(ctx):
+    return c05_cases(ctx)
 
 
 # ----------------------------------------------------------------------------- C13
@@ -506,6 +495,58 @@ def c18(ctx):
                        "goroutines gated at the key callbacks, the shared values are projected at every quiescent point; single-threaded programs bracket each "
                        "read-only call with projections of values carrying non-normalised Go types; the same operations run ungated under the Go race detector",
                   exhaustive=not ctx.quick())
+
+
+# ----------------------------------------------------------------------------- C06
+def c05_cases(ctx):
+    kinds_all = ["sign1", "sign1u", "sign", "sig"]
+    cases = gen(ctx, "Gen_C05", cfgtext(invariants=["BaseWF", "ConformingIsWF", "KindsDisjoint", "Emit"],
+                                        constants=dict(Depth=1, GenKinds=tlaset(kinds_all + ["csig"]), MaxBase=3)))
+    if ctx.quick():
+        c2 = cfgtext(invariants=["ConformingIsWF", "Emit"], constants=dict(Depth=2, GenKinds=tlaset(["sign1", "sig"]), MaxBase=1))
+    else:
+        c2 = cfgtext(invariants=["ConformingIsWF", "Emit"], constants=dict(Depth=2, GenKinds=tlaset(kinds_all), MaxBase=3))
+    cases += gen(ctx, "Gen_C05", c2, timeout=3000, heap="12g")
+    seen, uniq = set(), []
+    for c in cases:
+        k = tuple(c["bytes"])
+        if k not in seen:
+            seen.add(k)
+            c["src"] = "tlc"
+            uniq.append(c)
+    return uniq
+
+
+@prop("C06")
+def c06(ctx):
+    cases = [dict(bytes=c["bytes"], src="tlc-msg") for c in c05_cases(ctx)]
+    keys = [dict(bytes=c["bytes"], src="tlc-key") for c in keydec_cases(ctx)]
+    hdrs = [dict(bytes=c["image"], src="tlc-hdr") for c in hdrgrid_cases(ctx) if c["kind"] in ("prot", "unprot", "sign1")]
+    if ctx.quick():
+        rnd = random.Random(ctx.seed)
+        ctx.notes["key_cases_generated"], ctx.notes["header_images_generated"] = len(keys), len(hdrs)
+        keys, hdrs = rnd.sample(keys, min(len(keys), 40000)), rnd.sample(hdrs, min(len(hdrs), 15000))
+    cases += keys + hdrs
+    cases += harness(ctx, ["drive", "nopanic"])
+    seen, uniq = set(), []
+    for c in cases:
+        k = tuple(c["bytes"])
+        if k not in seen:
+            seen.add(k)
+            uniq.append(c)
+    events = harness(ctx, ["exec", "nopanic"], uniq, timeout=3000)
+    rejects = judge(ctx, "Trace_C06", events, shards=NCPU)
+    return report(ctx, events, rejects,
+                  nontrivial=lambda e: len(e["accepted"]) > 0,
+                  key=lambda e: tuple(e["bytes"]),
+                  rule="Inputs: every TLC-generated structural mutation (single/double) of valid messages of every kind, every TLC-generated COSE_Key variant and key-tree "
+                       "mutation, the wire images of the header grid, and a seeded byte-level mutation driver (bit flips, byte edits, insert/delete, truncation, splices, "
+                       "length-field edits, random bytes) over a corpus of valid messages, keys, header buckets and envelopes. Each input goes to all 9 decoding entry "
+                       "points under recover() and a deadline; every accepted value then runs re-encode, verify (symbolic and built-in verifiers), sign, countersign "
+                       "(full/abbreviated, pointer/value), verification of every nested countersignature, header accessors, key conversions, signer/verifier use; "
+                       "TLC judges every event (panic / timeout match no specification action) and evaluates its own decoders on the same input; non-trivial = "
+                       "at least one entry point accepted the input, so follow-up operations ran",
+                  exhaustive=False)
 
 
 def setup():
